@@ -552,7 +552,18 @@ class World:
         refused (ANY exception; that the object is unchanged is seen in the observations that follow); X: accepted"""
         if type(o) in self.mutable:
             return 'M'
-        for a in self.attrs(o) + ['foo']:
+        # every attribute the instance really has or reserves (round 11, C09r11): the declared fields, an unknown name,
+        # and whatever the instance dict / the classes' __slots__ hold — memo slots included, whatever they are called
+        extra = []
+        try:
+            extra += list(vars(o))
+        except TypeError:
+            pass
+        for k in type(o).__mro__:
+            sl = k.__dict__.get('__slots__', ())
+            extra += [sl] if isinstance(sl, str) else list(sl)
+        extra = [a for a in dict.fromkeys(extra) if isinstance(a, str) and not a.startswith('__') and a not in self.attrs(o)]
+        for a in self.attrs(o) + ['foo'] + extra:
             try:
                 cur = getattr(o, a)
             except AttributeError:
